@@ -471,17 +471,17 @@ theorem call_unwraps_return {fuel a bound env pos s cenv params defaults body na
 example : callFn ld0 2 (.closure 0) [] 0 {} sRet = .ok .null (sRet.newEnv 0).1 :=
   call_unwraps_return ld0 (s := sRet) rfl (bindParams_nil ld0 0 _ _ _ _) (eval_ret_absent ld0 0 _ {} _)
 
-/-- A `break` that reaches the end of a function body is a runtime error of the call: it never
+/-- A `break` that reaches the end of a function body is a runtime error of the call, reported at the `break` itself: it never
     crosses the function boundary (it cannot end a loop of the caller). -/
 theorem call_break_is_error {fuel a bound env pos s cenv params defaults body name s1 p s'}
     (hcell : s.cell a = some (.closure cenv params defaults body name))
     (hbind : bindParams ld fuel (s.frames.size) params defaults bound pos (s.newEnv cenv).1 = .ok () s1)
     (hbody : eval ld fuel (s.frames.size) body s1 = .ok (.brk p) s') :
-    callFn ld (fuel+1) (.closure a) bound env pos s = throwE "break outside of a loop" {} s' := by
+    callFn ld (fuel+1) (.closure a) bound env pos s = throwE "Cannot use break without surrounding loop" p s' := by
   rw [callFn_closure ld hcell hbind, hbody]
 
 example : callFn ld0 2 (.closure 0) [] 0 {} sBrk =
-    throwE "break outside of a loop" {} (sBrk.newEnv 0).1 :=
+    throwE "Cannot use break without surrounding loop" {} (sBrk.newEnv 0).1 :=
   call_break_is_error ld0 (s := sBrk) rfl (bindParams_nil ld0 0 _ _ _ _) (eval_brk ld0 0 _ {} _)
 
 /-- the same for `continue` -/
@@ -489,11 +489,11 @@ theorem call_continue_is_error {fuel a bound env pos s cenv params defaults body
     (hcell : s.cell a = some (.closure cenv params defaults body name))
     (hbind : bindParams ld fuel (s.frames.size) params defaults bound pos (s.newEnv cenv).1 = .ok () s1)
     (hbody : eval ld fuel (s.frames.size) body s1 = .ok (.cont p) s') :
-    callFn ld (fuel+1) (.closure a) bound env pos s = throwE "continue outside of a loop" {} s' := by
+    callFn ld (fuel+1) (.closure a) bound env pos s = throwE "Cannot use continue without surrounding loop" p s' := by
   rw [callFn_closure ld hcell hbind, hbody]
 
 example : callFn ld0 2 (.closure 0) [] 0 {} sCont =
-    throwE "continue outside of a loop" {} (sCont.newEnv 0).1 :=
+    throwE "Cannot use continue without surrounding loop" {} (sCont.newEnv 0).1 :=
   call_continue_is_error ld0 (s := sCont) rfl (bindParams_nil ld0 0 _ _ _ _) (eval_cont ld0 0 _ {} _)
 
 /-- a body value that is no control signal is the value of the call -/
@@ -693,7 +693,8 @@ theorem evalFor_never_break_continue {fuel env ids e body what pos s v s'}
 theorem eval_for {fuel env ids e body what pos s} :
     eval ld (fuel+1) env (.for ids e body what pos) s =
       match evalFor ld fuel env ids e body what pos s with
-      | .err v m p t s' => .err v m p t (ids.foldl (fun s x => s.remove env x) s')
+      | .ok v s' => .ok v (restoreVars env (hiddenVars s env ids) s')
+      | .err v m p t s' => .err v m p t (restoreVars env (hiddenVars s env ids) (ids.foldl (fun s x => s.remove env x) s'))
       | other => other := by rw [eval]; rfl
 
 theorem evalFor_str {fuel env ids e body what pos s cs s1}
@@ -703,10 +704,11 @@ theorem evalFor_str {fuel env ids e body what pos s cs s1}
   rw [evalFor, EvalM.bind_apply, he]
 
 example : eval ld0 4 0 (.for ["x"] (.lit (.str ['a']) {}) (.cont {}) "" {}) s0 =
-    .ok (.bool true) ((s0.put 0 "x" (.str ['a'])).remove 0 "x") := by
+    .ok (.bool true) (restoreVars 0 (hiddenVars s0 0 ["x"]) ((s0.put 0 "x" (.str ['a'])).remove 0 "x")) := by
   rw [eval_for, evalFor_str ld0 (eval_lit_str ld0 1 _ _ {} _)]
   show (match forString ld0 2 0 "x" ['a'] (Node.cont { }) (RVal.bool true) s0 with
-    | Out.err v m p t s' => Out.err v m p t (List.foldl (fun s x => s.remove 0 x) s' ["x"])
+    | Out.ok v s' => Out.ok v (restoreVars 0 (hiddenVars s0 0 ["x"]) s')
+    | Out.err v m p t s' => Out.err v m p t (restoreVars 0 (hiddenVars s0 0 ["x"]) (List.foldl (fun s x => s.remove 0 x) s' ["x"]))
     | other => other) = _
   rw [forString_step ld0 (eval_cont ld0 0 _ {} _)]
   simp only [RVal.isBreak, RVal.isReturn, RVal.isContinue, Bool.false_eq_true, if_false, if_true]
@@ -728,10 +730,11 @@ theorem for_never_break_continue {fuel env ids e body what pos s v s'}
 
 theorem for_example :
     eval ld0 4 0 (.for ["x"] (.lit (.str ['a']) {}) (.cont {}) "" {}) s0 =
-      .ok (.bool true) ((s0.put 0 "x" (.str ['a'])).remove 0 "x") := by
+      .ok (.bool true) (restoreVars 0 (hiddenVars s0 0 ["x"]) ((s0.put 0 "x" (.str ['a'])).remove 0 "x")) := by
   rw [eval_for, evalFor_str ld0 (eval_lit_str ld0 1 _ _ {} _)]
   show (match forString ld0 2 0 "x" ['a'] (Node.cont { }) (RVal.bool true) s0 with
-    | Out.err v m p t s' => Out.err v m p t (List.foldl (fun s x => s.remove 0 x) s' ["x"])
+    | Out.ok v s' => Out.ok v (restoreVars 0 (hiddenVars s0 0 ["x"]) s')
+    | Out.err v m p t s' => Out.err v m p t (restoreVars 0 (hiddenVars s0 0 ["x"]) (List.foldl (fun s x => s.remove 0 x) s' ["x"]))
     | other => other) = _
   rw [forString_example]
 
